@@ -85,6 +85,13 @@ func (w *recordWorkload) contents() ([]recordtypes.Content, string) {
 			URI:  pick(rng, "", "ipfs://x", "ipfs://x", "HTTPS://Example.ORG/Annual Report 2024.pdf", "http://ex\u00e4mple.org/\u00fc?q=a b&r=%zz", " leading and trailing ", "a\tb", "file:///tmp/../x/./y", "urn:uuid:6E8BC430-9C3A-11D9-9669-0800200C9A66", "%41%42%43"),
 			Meta: pick(rng, strings.Repeat("m", rng.Intn(40)), "caf\u00e9 \u2603 \U0001F600", "{\"k\": [1, 2,  3]}", "line1\nline2", " ")})
 	}
+	if rng.Intn(5) == 0 {
+		// digest and algorithm with white space at their ends, upper case, or non-ASCII text: "exactly the submitted contents"
+		i := rng.Intn(len(cs))
+		cs[i].Digest = pick(rng, " "+cs[i].Digest, cs[i].Digest+" ", "\t"+cs[i].Digest+"\n", strings.ToUpper(cs[i].Digest), "d\u00e9j\u00e0-"+cs[i].Digest)
+		cs[i].DigestAlgo = pick(rng, cs[i].DigestAlgo, " "+cs[i].DigestAlgo, cs[i].DigestAlgo+" ", "SHA-256 ")
+		w.run.Count("contents-with-padded-or-unusual-digest-fields", 1)
+	}
 	switch rng.Intn(8) {
 	case 0: // the same file listed twice (same digest and algorithm, another location)
 		c := cs[rng.Intn(len(cs))]
